@@ -14,6 +14,10 @@ def exit_verdict_flags(ctx, rep, rule):
     an, ip, out = ctx.run()
     fn = r.RUN.qualname
     tfn, cfn = r.timeout_flag, r.critical_flag
+    if tfn == cfn:
+        rep.error(rule, "the two causes of failure are kept in one attribute (`%s`, a record replaced as a whole): this "
+                  "rule follows two flags, one per cause, and cannot decide this form" % tfn)
+        return
     starts = [e for e in run_starts(an) if e.data['nwait'] == 0]
     rep.need(rule + ":reset", len(starts), 1, "entry starts")
     for e in starts:
@@ -64,6 +68,10 @@ def flag_tables(ctx, rep, rule_truthy, rule_why):
     r = ctx.roles
     an, ip, out = ctx.run()
     tfn, cfn = r.timeout_flag, r.critical_flag
+    if tfn == cfn:
+        rep.error(rule_truthy, "the two causes of failure are kept in one attribute (`%s`): the accessors cannot be "
+                  "tabulated flag by flag" % tfn)
+        return
     # what is stored when the timeout flag is set: a constant, or the configured timeout
     stored = set()
     for e in an.events('STORE'):
